@@ -52,7 +52,18 @@ func H_Builtins() {
 	c := godi.NewCollection()
 	errs := w.Register(c)
 	vrt.Assume(!addErrs(errs, w.N))
-	p, err := c.Build()
+	// Build() or BuildWithContext with a context of the caller's that carries a
+	// value and is cancelled as soon as Build has returned
+	var p godi.Provider
+	var err error
+	buildMode := vrt.Pick("buildmode", 0, 1)
+	if buildMode == 1 {
+		bctx, bcancel := context.WithCancel(context.WithValue(context.Background(), valKey{7}, "build"))
+		p, err = c.BuildWithContext(bctx)
+		bcancel()
+	} else {
+		p, err = c.Build()
+	}
 	vrt.Assert(err == nil, "C18.build_failed", "Build failed for a service taking built-ins:", err)
 	if err != nil {
 		return
@@ -129,6 +140,9 @@ func H_Builtins() {
 				if in.HasCtx {
 					s, err := godi.FromContext(in.Ctx)
 					vrt.Assert(err == nil && s == rc, "C18.singleton_context", what, "singleton did not receive the root scope's context")
+					vrt.Assert(in.Ctx == rc.Context(), "C18.singleton_context", what, "the context a singleton received is not the root scope's own context")
+					vrt.Assert(in.Ctx.Err() == nil, "C18.singleton_context_cancelled", what, "the context a singleton received is cancelled while the provider is open")
+					vrt.Assert(in.Ctx.Value(valKey{7}) == nil, "C18.build_context_leaked", what, "the context a singleton received carries the values of the context given to BuildWithContext")
 				}
 			} else {
 				if in.HasScope {
